@@ -219,16 +219,31 @@ def ws_session(seed):
     carrier = rng.choice(["h11", "h2"])
     nmsgs = rng.choice([0, 1, 3])
     crash = rng.choice([None, None, None, 0, 1]) if nmsgs else None
-    closer = rng.choice(["app", "client", "client", "reject", "eof", "break", "break"])
+    closer = rng.choice(["app", "client", "client", "reject", "eof", "break", "break", "early-data"])
     worker = rng.choice(["asyncio", "trio"])
     script = ws_script(rng, nmsgs, crash, "eof" if closer == "break" else closer)
+    if closer == "early-data":
+        # the client does not wait for the handshake: its first frame arrives while the application has not accepted yet
+        script = [("recv",), ("sleep", 2.0), ("send", {"type": "websocket.accept"}), ("recv_until_disconnect",)]
     desc = {"seed": seed, "carrier": "ws-" + carrier, "closer": closer, "crash": crash, "msgs": nmsgs, "worker": worker}
     log = AccessLog([])
     with StreamCounter() as counter:
         ws = W.WsSession(carrier, script, policy=rng.choice(["fifo", "random", "lifo"]), seed=seed, worker=worker)
         ws.rig.config._log = log
         driver = ws.driver
-        ws.open()
+        if closer == "early-data":
+            from wsproto.connection import Connection, ConnectionType
+
+            if carrier == "h11":
+                ws.rig.feed(ws.raw_request)
+            else:
+                ws.h2c.send_headers(1, ws.request_headers, end_stream=False)
+                ws.rig.feed(ws.h2c.data_to_send())
+            ws.rig.run(advance_time=False)          # the application is started and sleeps before accepting
+            ws.send_raw(Connection(ConnectionType.CLIENT).send(TextMessage(data="early")))
+            ws.pump()
+        else:
+            ws.open()
         ticks = rng.choice([0, 1, 2, 4])
         for _ in range(ticks):
             ws.rig.run(advance_time=False)
